@@ -22,6 +22,7 @@ found_by={"C02-Zeta-tail-precision":"C02 law test (Zeta<f64> s<=1.2, Zeta<f32> s
 "C02-Binomial-huge-n-tiny-p":"C02 grid cell Binomial(1<<62, 2^-53) (quick); thorough-tier random cells for the 1e13..2^53 part",
 "C02-Binomial-BTPE-endpoint-n":"C02 thorough tier, exhaustive n <= 30 set at n = 1e8 (a regression of fix 49f8c75)",
 "C01-Beta-BB-cancellation":"C01 random near-switch cell under VERIF_SEED=32 / chacha (second multi-seed robustness run)",
+"C08-alias-subnormal-weight-sum":"a round-6 sub-agent (writing C08 changes) — NOT by the checks, whose float alphabets stopped at MIN_POSITIVE; subnormal vectors were added and re-find it on the pre-fix source",
 "C02-Binomial-BINV-tiny-p":"C02 random cell under VERIF_SEED=11 / xoshiro (multi-seed robustness run)"}
 txt="Fixed (one `fix:` commit each):\n\n| property | commit | what failed | found by |\n|---|---|---|---|\n"
 for f in kf:
